@@ -317,7 +317,8 @@ def judge_c05(rec):
             pstates = [tasks[f"{p}@{graph}"].state.name for p in info["parents"] if f"{p}@{graph}" in tasks]
             done = [s == "COMPLETED" for s in pstates]
             parents_done = (any(done) if info["terminal"] else all(done)) if pstates else True
-            if st in ("RELEASED", "SCHEDULED", "RUNNING") and feasible and parents_done:
+            if st in ("RELEASED", "SCHEDULED", "RUNNING") and feasible and parents_done and pol["name"] != "Scripted":
+                # (the generated plan-ahead policy may decline a runnable task for good: only the bundled policies promise this)
                 V.append(
                     Violation(
                         "ended_with_runnable_work",
@@ -755,7 +756,11 @@ def judge_c08(rec):
         from data import CSVReader
 
         try:
-            reader = CSVReader([path])
+            import contextlib
+            import io
+
+            with contextlib.redirect_stdout(io.StringIO()):  # the reader prints a line per row type it does not know
+                reader = CSVReader([path])
         except Exception as e:
             cause = e.__cause__ or e
             line = str(e)[:160]
